@@ -198,7 +198,9 @@ Encode(ev) ==
       globals ==
         SetToSeq({[name |-> f, w |-> Word(OP_DLOPEN_FUNC, idx[Raw(ev.fn[f])]), val |-> "0"] : f \in DOMAIN ev.fn})
         \o SetToSeq({[name |-> g, w |-> Word(OP_GLOBAL_VAR, idx[ev.gv[g]]), val |-> "0"] : g \in DOMAIN ev.gv})
-        \o SetToSeq({[name |-> c, w |-> Word(OP_CONSTANT_INT, 0 - 1), val |-> ev.kc[c]] : c \in DOMAIN ev.kc})
+        \* 'macro' declarations are not re-declared by Parser.include(): only the FFI's own constants
+        \o SetToSeq({[name |-> c, w |-> Word(OP_CONSTANT_INT, 0 - 1), val |-> ev.kc[c]]
+                      : c \in {c \in DOMAIN ev.kc : <<"k", c>> \notin ev.inc}})
         \o SetToSeq(UNION {{[name |-> ev.en[g].names[i], w |-> Word(OP_ENUM, 0 - 1), val |-> ev.en[g].vals[i]]
                             : i \in DOMAIN ev.en[g].names} : g \in DOMAIN ev.en})
       structs ==
